@@ -413,6 +413,7 @@ decided by exhaustive evaluation of the guard over environment x {no, some tagge
     coverage(m, ctx, apply_fn, &sites);
     auto_tags(m, ctx, &ev);
     header_flow(m, ctx, "C03.header");
+    reset_rule(m, ctx, "C03.env", "tagging_environment");
 }
 
 pub struct Site {
